@@ -103,7 +103,7 @@ Definition simple_op (os : Z) (b : Z) : option string :=
   | 144 => Some "NOP" | 244 => Some "HLT" | 250 => Some "CLI" | 251 => Some "STI" | 252 => Some "CLD" | 253 => Some "STD"
   | 248 => Some "CLC" | 249 => Some "STC" | 245 => Some "CMC" | 159 => Some "LAHF" | 158 => Some "SAHF"
   | 39 => Some "DAA" | 47 => Some "DAS" | 55 => Some "AAA" | 63 => Some "AAS" | 155 => Some "WAIT" | 201 => Some "LEAVE"
-  | 206 => Some "INTO" | 204 => Some "INT3" | 195 => Some "RET" | 203 => Some "RETF" | 240 => Some "LOCK"
+  | 206 => Some "INTO" | 195 => Some "RET" | 203 => Some "RETF" | 240 => Some "LOCK"
   | 243 => Some "REP" | 242 => Some "REPNE" | 214 => Some "SETALC" | 241 => Some "ICEBP"
   | 46 => Some "CS" | 62 => Some "DS" | 38 => Some "ES" | 54 => Some "SS" | 100 => Some "FS" | 101 => Some "GS"
   | 96 => Some (if os =? 16 then "PUSHA" else "PUSHAD") | 97 => Some (if os =? 16 then "POPA" else "POPAD")
@@ -265,6 +265,8 @@ Definition decode_body (m : bmode) (os asz pl : Z) (bs : list Z) : option (instr
       else if op =? 238 then mk "OUT" 8 [OReg 16 2; OReg 8 0] (pl + 1)
       else if op =? 239 then mk "OUT" os [OReg 16 2; OReg os 0] (pl + 1)
       else if op =? 205 then match with_imm 1 false r with Some v => mk "INT" 8 [OImm v] (pl + 2) | None => None end
+      (* CC: the SDM lists it as "INT 3" / INT3, the one-byte form of the vector-3 software interrupt *)
+      else if op =? 204 then mk "INT" 8 [OImm 3] (pl + 1)
       else if op =? 15 then
         match r with
         | [] => None
